@@ -20,7 +20,7 @@ RULE = ("random histories (length 50-400) over a pool of 30 quantities covering 
         "Unit.X(q), PreferredUnits.slot(q), foreign-unit reads, passing as argument to library constructors and "
         "fire/danger_space; a case = one history (seed-derived op list); non-trivial when it contains a display-unit "
         "change followed by a read, hash or comparison")
-MUST_OBSERVE = ["neighbour_comparisons", "ops", "pool_rereads", "comparisons", "hash_checks", "foreign_reads_rejected", "library_calls",
+MUST_OBSERVE = ["foreign_unit_code_equals_a_reading", "neighbour_comparisons", "ops", "pool_rereads", "comparisons", "hash_checks", "foreign_reads_rejected", "library_calls",
                 "display_unit_changes"]
 ASSUMPTIONS = ["shadow values are the library's own answers recorded at construction (the property is about "
                "immutability over a history); agreement of those answers with SI is C06",
@@ -74,6 +74,11 @@ def make_pool(rng):
             x = si.from_base(dim, unit, rng.choice([273.15, rng.uniform(180, 350)]))
         else:
             x = rng.choice([0.0, 1.0, -2.5, 10 ** rng.uniform(-6, 6), -(10 ** rng.uniform(-3, 3)), float(rng.randint(1, 500))])
+            if rng.random() < 0.25:
+                # a magnitude whose number, in some everyday unit, coincides with the integer code of a unit of another dimension
+                # (Unit is an IntEnum: 30 = FootPound, 60 = MPS, 70 = Grain ...) - a number is never a unit
+                unit = rng.choice([u for u in ("Foot", "Yard", "Inch", "FPS", "MPS", "InHg", "hPa", "Grain", "Pound", "FootPound") if u in si.DIMENSIONS[dim]] or [unit])
+                x = float(int(rng.choice([u for u in Unit if u.name not in si.DIMENSIONS[dim]])))
         q = Unit[unit](x)
         pool.append((q, Shadow(dim, unit, x, q)))
         # an equal-magnitude twin in another unit, built by conversion (same raw value by construction of << / copy)
@@ -208,6 +213,12 @@ def run_history(ctx, seed_case):
         own = si.DIMENSIONS[sh.dim]
         foreign_dim = rng.choice([d for d in si.DIMENSIONS if d != sh.dim])
         foreign = rng.choice(si.DIMENSIONS[foreign_dim])
+        # where one of the quantity's own readings is a whole number that is also the code of a foreign unit, prefer that unit
+        colliding = [u.name for u in Unit if u.name not in own and any(v == int(u) for v in sh.vals.values())]
+        if colliding and rng.random() < 0.7:
+            foreign = rng.choice(colliding)
+            foreign_dim = next(d for d, us in si.DIMENSIONS.items() if foreign in us)
+            ctx.count("foreign_unit_code_equals_a_reading")
         op = rng.choice(["lshift", "convert", "unitcall", "slot", "rshift", "get_in", "units", "unit_value", "str",
                          "repr", "float", "hash", "cmp_q", "cmp_num", "eqhash", "foreign_read", "foreign_label",
                          "foreign_ctor", "library", "relabel_own", "foreign_unitcall", "foreign_argument", "neighbours"])
